@@ -350,9 +350,35 @@ def rule_counter(chk: Check, view: AsyncView, rid: str):
         n = T.mk_index(sel.term, T.const(1))
         ok = ok and r.loops[pops[0].loops[-1]].iter == T.mk_call("range", [n])
     chk.add(rid, "messages stamped with seq_in and recorded", ok, "each of the num_msgs popped messages must be recorded with seq_in = the pre-increment connection tick", chk.loc(fi))
+    rule_message_record(chk, view, rid)
     for k, attr in (("node._reset", "_tick"), ("conn.reset", "_tick")):
         v = view.results[k].attr("self", attr)
         chk.add(rid, f"{k}: counter starts at 0", T.const_value(T.assume(v, _end_guard(view, k))) == 0, f"{k} sets {attr} = {T.show(v)[:80]}", chk.loc(view.fi(k)))
+
+
+def rule_message_record(chk: Check, view: AsyncView, rid: str):
+    """No consumed message is missing from the record (shared by C03: loss-free, and C13: truncation only drops later rows):
+    every popped message is appended to the message record - the step bound max_records counts steps, not messages - and
+    get_record hands on everything its step filter keeps."""
+    r = view.results["conn.push_selection"]
+    fi = view.fi("conn.push_selection")
+    recs = [e for e in r.events if e.kind == "call" and e.name == "self._record_messages.append"]
+    pops = queue_ops(r, "q_msgs", "popleft")
+    ok = len(recs) == 1 and len(pops) == 1 and flow.equivalent(recs[0].guard, pops[0].guard)
+    chk.add(rid, "every selected message is recorded", ok, f"the message record is appended under {T.show(recs[0].guard)[:160] if recs else None}, the messages are taken under "
+            f"{T.show(pops[0].guard)[:120] if pops else None}: a consumed message missing from the record makes recorded steps refer to unknown messages", chk.loc(fi, recs[0].node if recs else None))
+    gr = view.results["conn.get_record"]
+    fg = view.fi("conn.get_record")
+    flt = [e for e in gr.events if e.kind == "call" and e.name == "filter"]
+    sts = [e for e in gr.events if e.kind == "store_attr" and e.name == "self._record"]
+    ok = len(flt) == 1 and len(sts) == 1 and sts[0].term[0] == "replace" and "messages" in dict(sts[0].term[2])
+    if ok:
+        msgs = dict(sts[0].term[2])["messages"]
+        kept = {flt[0].term, T.mk_call("list", [flt[0].term]), T.mk_call("tuple", [flt[0].term])}
+        stars = [x[1] for x in T.walk(msgs) if x[0] == "star"]
+        ok = len(stars) == 1 and stars[0] in kept
+    chk.add(rid, "get_record keeps every message of the recorded steps", bool(ok), "the stacked message record must be built from everything the seq_in <= last recorded step filter keeps "
+            "(a cap by max_records cuts messages of recorded steps: several messages can belong to one step)", chk.loc(fg))
 
 
 def _end_guard(view, key):
